@@ -16,14 +16,14 @@ theorem asciiDecode_sigBytes (t : Ty) : asciiDecode (Spec.sigBytes t) = some t.r
   asciiDecode_encode _ _ (asciiEncode_render t)
 
 /-- `unmarshal(vsig, data, offset)` for a signature holding one complete type, at an aligned offset. -/
-theorem unmarshalTop_single (one : List Char → Nat → URes) (t : Ty) (offset : Nat)
-    (hal : padLen (Spec.alignTable t.code) offset = 0) :
+theorem unmarshalTop_single (A : AlignTable) (hA : PadOK A) (hpos : A.Pos) (one : List Char → Nat → URes) (t : Ty) (offset : Nat)
+    (hal : padLen (A t.code) offset = 0) :
     unmarshalTop one t.render offset =
       match one t.render offset with
       | .ok (n, v) => .ok (n, [v])
       | .error e => .error e := by
   unfold unmarshalTop
-  simp only [lazyPieces_render, unmarshalSeq, head?_render, padLenOf_code, hal, Nat.add_zero]
+  simp only [lazyPieces_render, unmarshalSeq, head?_render, hA, hal, Nat.add_zero]
   cases h : one t.render offset with
   | error e => simp
   | ok r =>
@@ -39,9 +39,9 @@ theorem code_ne_brace (t : Ty) (h : ∀ kt vt, t ≠ .dict kt vt) : t.code ≠ '
   | dict kt vt => exact absurd rfl (h kt vt)
 
 mutual
-theorem unmarshalOne_spec (le : Bool) (fds : Fds) (data : Bytes) :
+theorem unmarshalOne_spec (A : AlignTable) (hA : PadOK A) (hpos : A.Pos) (le : Bool) (fds : Fds) (data : Bytes) :
     ∀ (v : Val) (t : Ty) (pre bs rest : Bytes) (off : Nat) (pv : PyVal) (fuel : Nat),
-      t.WF = true → Spec.encode Spec.alignTable (endianOf le) t v off = some bs →
+      t.WF = true → Spec.encode A (endianOf le) t v off = some bs →
       data = pre ++ (bs ++ rest) → pre.length = off → fromSpec fds v t = some pv → v.depth ≤ fuel →
       unmarshalOne le data fds fuel t.render off = .ok (bs.length, pv)
   | .int n, t, pre, bs, rest, off, pv, fuel, _, he, hd, hp, hv, hf => by
@@ -76,22 +76,22 @@ theorem unmarshalOne_spec (le : Bool) (fds : Fds) (data : Bytes) :
     obtain ⟨f, rfl⟩ : ∃ f, fuel = f + 1 := ⟨fuel - 1, by omega⟩
     have hok' := hok
     simp only [Spec.variantTypeOk, Bool.and_eq_true, decide_eq_true_eq] at hok'
-    have hpos := alignTable_pos t'
+    have hpos' := hpos t'
     simp only [fromSpec] at hv
     simp only [List.length_append, encUInt_length, Spec.sigBytes_length, List.length_cons, List.length_nil] at hbody ⊢
     -- the signature
     have hsg := uSignature_at le data pre (Spec.sigBytes t')
-      (zeros (padLen (Spec.alignTable t'.code) (off + (1 + t'.render.length + (0 + 1)))) ++ body ++ rest) off
+      (zeros (padLen (A t'.code) (off + (1 + t'.render.length + (0 + 1)))) ++ body ++ rest) off
       (by rw [hd]; simp [Nat.add_assoc]) hp (by simpa using hok'.2)
     simp only [Spec.sigBytes_length] at hsg
-    have ih := unmarshalOne_spec le fds data v' t'
+    have ih := unmarshalOne_spec A hA hpos le fds data v' t'
       (pre ++ (encUInt (endianOf le) 1 t'.render.length ++ Spec.sigBytes t' ++ [0]) ++
-        zeros (padLen (Spec.alignTable t'.code) (off + (1 + t'.render.length + (0 + 1)))))
+        zeros (padLen (A t'.code) (off + (1 + t'.render.length + (0 + 1)))))
       body rest _ pv f hok'.1 hbody (by rw [hd]; simp [Nat.add_assoc]) (by simp; omega) hv (by omega)
     simp only [Ty.render, unmarshalOne, List.head?_cons, udisp_v, uSignature, hsg.1, hsg.2, asciiDecode_sigBytes,
-      head?_render, padLenOf_code]
+      head?_render, hA]
     have e1 : off + (1 + t'.render.length + 1) = off + (1 + t'.render.length + (0 + 1)) := by omega
-    rw [e1, unmarshalTop_single _ t' _ (padLen_after _ _ hpos), ih]
+    rw [e1, unmarshalTop_single A hA hpos _ t' _ (padLen_after _ _ hpos'), ih]
     simp only [Except.ok.injEq, Prod.mk.injEq, and_true, zeros_length]
   | .array vs, t, pre, bs, rest, off, pv, fuel, hw, he, hd, hp, hv, hf => by
     cases t <;> simp only [Spec.encode, reduceCtorEq] at he
@@ -107,7 +107,7 @@ theorem unmarshalOne_spec (le : Bool) (fds : Fds) (data : Bytes) :
     obtain ⟨f, rfl⟩ : ∃ f, fuel = f + 1 := ⟨fuel - 1, by omega⟩
     have hlt : body.length < 256 ^ 4 := by unfold Spec.maxArray at hmax; omega
     have hlen := uLenWord_at le .unmarshal_array 'I' 4 (ufmt_array le) rfl data pre
-      (zeros (padLen (Spec.alignTable el.code) (off + 4)) ++ body ++ rest) off body.length
+      (zeros (padLen (A el.code) (off + 4)) ++ body ++ rest) off body.length
       (by rw [hd]; simp [Nat.add_assoc]) hp hlt
     -- the elements
     have hvals : ∃ values, fromSpecList fds vs el = some values := by
@@ -116,11 +116,11 @@ theorem unmarshalOne_spec (le : Bool) (fds : Fds) (data : Bytes) :
       | none =>
         cases el <;> simp [fromSpec, hl] at hv
     obtain ⟨values, hvals⟩ := hvals
-    have ih := unmarshalElems_spec le fds data vs el
-      (pre ++ encUInt (endianOf le) 4 body.length ++ zeros (padLen (Spec.alignTable el.code) (off + 4)))
+    have ih := unmarshalElems_spec A hA hpos le fds data vs el
+      (pre ++ encUInt (endianOf le) 4 body.length ++ zeros (padLen (A el.code) (off + 4)))
       body rest _ values f body.length hw hbody (by rw [hd]; simp [Nat.add_assoc]) (by simp; omega) hvals (by omega)
       (Nat.le_refl _)
-    simp only [Ty.render, unmarshalOne, List.head?_cons, udisp_a, hlen, List.tail, head?_render, padLenOf_code, ih]
+    simp only [Ty.render, unmarshalOne, List.head?_cons, udisp_a, hlen, List.tail, head?_render, hA, ih]
     simp only [ne_eq, not_true_eq_false, if_false]
     by_cases hdict : ∃ kt vt, el = .dict kt vt
     · obtain ⟨kt, vt, rfl⟩ := hdict
@@ -151,7 +151,7 @@ theorem unmarshalOne_spec (le : Bool) (fds : Fds) (data : Bytes) :
     | none => simp [hl] at hv
     | some values =>
       simp only [hl, Option.map_some, Option.some.injEq] at hv; subst hv
-      have ih := unmarshalSeq_spec le fds data vs fs pre bs rest off values f hw.2 he hd hp hl (by omega)
+      have ih := unmarshalSeq_spec A hA hpos le fds data vs fs pre bs rest off values f hw.2 he hd hp hl (by omega)
       have hdisp : unmarshalOne le data fds (f + 1) (Ty.struct fs).render off =
           match unmarshalTop (unmarshalOne le data fds f) (Ty.struct fs).render.tail.dropLast off with
           | .error e => .error e
@@ -182,12 +182,12 @@ theorem unmarshalOne_spec (le : Bool) (fds : Fds) (data : Bytes) :
       | none => simp [hx, hy] at hv
       | some y =>
         simp only [hx, hy, Option.some.injEq] at hv; subst hv
-        have iha := unmarshalOne_spec le fds data a kt (pre ++ zeros (padLen (Spec.alignTable kt.code) off)) kb
-          (zeros (padLen (Spec.alignTable vt.code) (off + padLen (Spec.alignTable kt.code) off + kb.length)) ++ vb ++ rest)
+        have iha := unmarshalOne_spec A hA hpos le fds data a kt (pre ++ zeros (padLen (A kt.code) off)) kb
+          (zeros (padLen (A vt.code) (off + padLen (A kt.code) off + kb.length)) ++ vb ++ rest)
           _ x f hw.1 hkb (by rw [hd]; simp [Nat.add_assoc]) (by simp; omega) hx (by omega)
-        have ihb := unmarshalOne_spec le fds data b vt
-          (pre ++ zeros (padLen (Spec.alignTable kt.code) off) ++ kb ++
-            zeros (padLen (Spec.alignTable vt.code) (off + padLen (Spec.alignTable kt.code) off + kb.length)))
+        have ihb := unmarshalOne_spec A hA hpos le fds data b vt
+          (pre ++ zeros (padLen (A kt.code) off) ++ kb ++
+            zeros (padLen (A vt.code) (off + padLen (A kt.code) off + kb.length)))
           vb rest _ y f hw.2 hvb (by rw [hd]; simp [Nat.add_assoc]) (by simp; omega) hy (by omega)
         have hdisp : unmarshalOne le data fds (f + 1) (Ty.dict kt vt).render off =
             match unmarshalTop (unmarshalOne le data fds f) (Ty.dict kt vt).render.tail.dropLast off with
@@ -199,12 +199,12 @@ theorem unmarshalOne_spec (le : Bool) (fds : Fds) (data : Bytes) :
         unfold unmarshalTop
         have hlp := lazyPieces_renderAll [kt, vt]
         simp only [List.map_cons, List.map_nil] at hlp
-        simp only [hlp, unmarshalSeq, head?_render, padLenOf_code, iha, ihb]
+        simp only [hlp, unmarshalSeq, head?_render, hA, iha, ihb]
         simp only [Except.ok.injEq, Prod.mk.injEq, and_true, List.length_append, zeros_length]
         omega
-theorem unmarshalElems_spec (le : Bool) (fds : Fds) (data : Bytes) :
+theorem unmarshalElems_spec (A : AlignTable) (hA : PadOK A) (hpos : A.Pos) (le : Bool) (fds : Fds) (data : Bytes) :
     ∀ (vs : List Val) (el : Ty) (pre body rest : Bytes) (off : Nat) (values : List PyVal) (fuel n : Nat),
-      el.WF = true → Spec.encodeElems Spec.alignTable (endianOf le) el vs off = some body →
+      el.WF = true → Spec.encodeElems A (endianOf le) el vs off = some body →
       data = pre ++ (body ++ rest) → pre.length = off → fromSpecList fds vs el = some values →
       depthAll vs ≤ fuel → body.length ≤ n →
       unmarshalElems (unmarshalOne le data fds fuel el.render) el.code (off + body.length) n off =
@@ -233,24 +233,24 @@ theorem unmarshalElems_spec (le : Bool) (fds : Fds) (data : Bytes) :
         have hne := Spec.encode_nonempty _ _ v el _ b hw hb
         simp only [List.length_append, zeros_length] at hn
         obtain ⟨m, rfl⟩ : ∃ m, n = m + 1 := ⟨n - 1, by omega⟩
-        have ih1 := unmarshalOne_spec le fds data v el (pre ++ zeros (padLen (Spec.alignTable el.code) off)) b
+        have ih1 := unmarshalOne_spec A hA hpos le fds data v el (pre ++ zeros (padLen (A el.code) off)) b
           (r ++ rest) _ x fuel hw hb (by rw [hd]; simp [Nat.add_assoc]) (by simp; omega) hx (by omega)
-        have ih2 := unmarshalElems_spec le fds data vs el
-          (pre ++ zeros (padLen (Spec.alignTable el.code) off) ++ b) r rest _ xs fuel m hw hr
+        have ih2 := unmarshalElems_spec A hA hpos le fds data vs el
+          (pre ++ zeros (padLen (A el.code) off) ++ b) r rest _ xs fuel m hw hr
           (by rw [hd]; simp [Nat.add_assoc]) (by simp; omega) hxs (by omega) (by omega)
         unfold unmarshalElems
-        have hlt : off < off + (zeros (padLen (Spec.alignTable el.code) off) ++ b ++ r).length := by
+        have hlt : off < off + (zeros (padLen (A el.code) off) ++ b ++ r).length := by
           simp only [List.length_append, zeros_length]; omega
-        simp only [hlt, if_true, padLenOf_code, ih1]
+        simp only [hlt, if_true, hA, ih1]
         have hnz : ¬ (b.length = 0) := by omega
         simp only [hnz, if_false]
-        have hstop : off + (zeros (padLen (Spec.alignTable el.code) off) ++ b ++ r).length =
-            off + padLen (Spec.alignTable el.code) off + b.length + r.length := by
+        have hstop : off + (zeros (padLen (A el.code) off) ++ b ++ r).length =
+            off + padLen (A el.code) off + b.length + r.length := by
           simp only [List.length_append, zeros_length]; omega
         rw [hstop, ih2]
-theorem unmarshalSeq_spec (le : Bool) (fds : Fds) (data : Bytes) :
+theorem unmarshalSeq_spec (A : AlignTable) (hA : PadOK A) (hpos : A.Pos) (le : Bool) (fds : Fds) (data : Bytes) :
     ∀ (vs : List Val) (ts : List Ty) (pre bs rest : Bytes) (off : Nat) (values : List PyVal) (fuel : Nat),
-      allWF ts = true → Spec.encodeFields Spec.alignTable (endianOf le) ts vs off = some bs →
+      allWF ts = true → Spec.encodeFields A (endianOf le) ts vs off = some bs →
       data = pre ++ (bs ++ rest) → pre.length = off → fromSpecFields fds vs ts = some values →
       depthAll vs ≤ fuel →
       unmarshalSeq (unmarshalOne le data fds fuel) (ts.map Ty.render) none off = .ok (off + bs.length, values)
@@ -279,12 +279,12 @@ theorem unmarshalSeq_spec (le : Bool) (fds : Fds) (data : Bytes) :
         | none => simp [hx, hxs] at hv
         | some xs =>
           simp only [hx, hxs, Option.some.injEq] at hv; subst hv
-          have ih1 := unmarshalOne_spec le fds data v t (pre ++ zeros (padLen (Spec.alignTable t.code) off)) b
+          have ih1 := unmarshalOne_spec A hA hpos le fds data v t (pre ++ zeros (padLen (A t.code) off)) b
             (r ++ rest) _ x fuel hw.1 hb (by rw [hd]; simp [Nat.add_assoc]) (by simp; omega) hx (by omega)
-          have ih2 := unmarshalSeq_spec le fds data vs ts
-            (pre ++ zeros (padLen (Spec.alignTable t.code) off) ++ b) r rest _ xs fuel hw.2 hr
+          have ih2 := unmarshalSeq_spec A hA hpos le fds data vs ts
+            (pre ++ zeros (padLen (A t.code) off) ++ b) r rest _ xs fuel hw.2 hr
             (by rw [hd]; simp [Nat.add_assoc]) (by simp; omega) hxs (by omega)
-          simp only [List.map_cons, unmarshalSeq, head?_render, padLenOf_code, ih1, ih2]
+          simp only [List.map_cons, unmarshalSeq, head?_render, hA, ih1, ih2]
           simp only [Except.ok.injEq, Prod.mk.injEq, and_true, List.length_append, zeros_length]
           omega
 end
